@@ -12,10 +12,8 @@ use std::path::PathBuf;
 
 /// Run one case (`op` + inputs) on the implementation.
 pub fn exec(op: &str, inputs: &[String]) -> Option<Reply> {
-    if op.starts_with("val.") || op == "o.c18" {
-        return c18::exec(op, inputs);
-    }
-    None
+    // first module that recognises the op answers
+    None.or_else(|| c18::exec(op, inputs))
 }
 
 fn generate(prop: &str, sink: &mut sink::Sink, rng: &mut rng::Rng, n: u64) -> bool {
